@@ -5,7 +5,7 @@
   (modelled by `goOverflows`, proved impossible below that in Props/C12).
 -/
 import Flounder.Model.Basic
-import Flounder.Gen.Search
+import Flounder.Gen.Uci
 
 namespace Flounder
 open Gen
